@@ -113,7 +113,7 @@ func c14(r *ev.Run) {
 	sort.Strings(names)
 	nrandom := 150
 	if r.Tier == "thorough" {
-		nrandom = 500
+		nrandom = 2500
 	}
 	for i := 0; i < nrandom; i++ {
 		b := make([]byte, 1+rnd.Intn(10))
